@@ -237,6 +237,18 @@ static void drv_step(struct cmd *c)
 		return;
 	}
 	/* ---- mode "ctx" ---- */
+	/* calls that are not possible in the present state are not made at all
+	 * (seeded histories cannot know which handles are still alive) */
+	{
+		int h = (int) drv_int(c, "h", 1), skip = 0;
+		if (!strcmp(a, "dreply") || !strcmp(a, "drelease")) skip = (h < 1 || h > MAXH || !hd[h]);
+		else if (!strcmp(a, "defer")) skip = (!own || h < 1 || h > MAXH || hd[h]);
+		else skip = !own;
+		if (skip) {
+			drv_begin(c); j_str("ret", "skipped"); drv_dbg(); drv_end();
+			return;
+		}
+	}
 	if (!strcmp(a, "arm")) {
 		size_t len = 0;
 		uint8_t *id = drv_bytes(c, "id", &len);
